@@ -21,6 +21,7 @@ type vAdvSyncer struct {
 	honest  bool
 	// hashes of all nodes of the honest tree (for the adversary's choice of hash entries)
 	realHashes []hash.Hash
+	db         *vMemDB
 }
 
 func (a *vAdvSyncer) tamper(p *syncer.Proof) {
@@ -31,7 +32,7 @@ func (a *vAdvSyncer) tamper(p *syncer.Proof) {
 	n := len(p.Entries)
 	mut := symx.Cfg("mut", -1)
 	if mut < 0 {
-		mut = symx.Choose("mut", 10)
+		mut = symx.Choose("mut", 11)
 	}
 	switch mut {
 	case 0: // unchanged
@@ -124,6 +125,39 @@ func (a *vAdvSyncer) tamper(p *syncer.Proof) {
 			symx.Assume(p.UntrustedRoot != real)
 		}
 		symx.Cover("mut-root-version")
+	case 10: // the genuine node of the first entry in its full serialisation (child hashes embedded), then a forged leaf below it
+		if n < 2 || len(p.Entries[0]) < 2 || p.Entries[0][0] != 0x01 {
+			return
+		}
+		first, err := node.UnmarshalBinary(p.Entries[0][1:])
+		if err != nil {
+			return
+		}
+		in, ok := first.(*node.InternalNode)
+		if !ok {
+			return
+		}
+		// (the proof's first entry is the compact form of the root node; its full form is what the node database stores)
+		_ = in
+		var full []byte
+		for _, rh := range a.realHashes {
+			data := a.db.lookup(rh)
+			if nd, err := node.UnmarshalBinary(data); err == nil {
+				if ri, ok := nd.(*node.InternalNode); ok && ri.Label.Equal(in.Label) && ri.LabelBitLength == in.LabelBitLength && len(data) > len(p.Entries[0])-1 {
+					full = data
+				}
+			}
+		}
+		if full == nil {
+			return
+		}
+		leaf := &node.LeafNode{Key: node.Key(symx.Bytes("forgedKey", 1+symx.Choose("forgedKeyLen", 2))), Value: symx.Bytes("forgedVal", 1)}
+		raw, err := leaf.MarshalBinary()
+		symx.Assert(err == nil, "LeafNode.MarshalBinary failed")
+		p.Entries = append([][]byte{}, p.Entries...)
+		p.Entries[0] = append([]byte{0x01}, full...)
+		p.Entries[1+symx.Choose("mutAt", n-1)] = append([]byte{0x01}, raw...)
+		symx.Cover("mut-full-form")
 	case 9: // truncate to a single empty-subtree claim
 		p.Entries = [][]byte{nil}
 		symx.Cover("mut-empty")
@@ -180,7 +214,7 @@ func vServerDB(k, total int) (Tree, *vRef, node.Root, *vMemDB) {
 }
 
 func vNewAdv(server Tree, d *vMemDB) *vAdvSyncer {
-	a := &vAdvSyncer{inner: server, honest: symx.Cfg("adv", 0) == 0}
+	a := &vAdvSyncer{inner: server, honest: symx.Cfg("adv", 0) == 0, db: d}
 	for _, n := range d.nodes {
 		a.realHashes = append(a.realHashes, n.h)
 	}
@@ -312,4 +346,57 @@ func VerifC04Verify() {
 		v, ok := ref.get(e.Key)
 		symx.Assert(ok && bytes.Equal(v, e.Value), "accepted proof carries a pair that is not under the trusted root")
 	}
+}
+
+// vOneShot relays exactly one request to the honest tree, asking for the proof format chosen by the
+// harness, and fails every further request.
+type vOneShot struct {
+	inner   syncer.ReadSyncer
+	version uint16
+	used    int
+}
+
+var errVSecondRequest = context.DeadlineExceeded
+
+func (o *vOneShot) SyncGet(ctx context.Context, r *syncer.GetRequest) (*syncer.ProofResponse, error) {
+	o.used++
+	if o.used > 1 {
+		return nil, errVSecondRequest
+	}
+	rr := *r
+	rr.ProofVersion = o.version
+	return o.inner.SyncGet(ctx, &rr)
+}
+
+func (o *vOneShot) SyncGetPrefixes(ctx context.Context, r *syncer.GetPrefixesRequest) (*syncer.ProofResponse, error) {
+	o.used++
+	return nil, errVSecondRequest
+}
+
+func (o *vOneShot) SyncIterate(ctx context.Context, r *syncer.IterateRequest) (*syncer.ProofResponse, error) {
+	o.used++
+	return nil, errVSecondRequest
+}
+
+// VerifC04OneProof (completeness): the single proof an honest tree builds for a lookup - in either
+// proof format - is enough for a reader holding only the root to answer that lookup, for present
+// and for absent keys (an absence proof must contain what shows the absence).
+func VerifC04OneProof() {
+	k := symx.Cfg("k", 2)
+	server, ref, root := vServer(k, k+1)
+	q := vOpKey("key", k, k+1)
+	one := &vOneShot{inner: server, version: uint16(symx.Choose("version", 2))}
+	client := NewWithRoot(one, nil, root)
+	got, err := client.Get(vCtx, q)
+	symx.Assert(err == nil, "the proof built for a lookup does not suffice to answer that lookup")
+	want, present := ref.get(q)
+	if present {
+		symx.Assert(got != nil && bytes.Equal(got, want), "reader answered with a different value")
+		symx.Cover("present")
+	} else {
+		symx.Assert(got == nil, "reader answered with a value for an absent key")
+		symx.Cover("absent")
+	}
+	symx.Assert(one.used <= 1, "more than one proof was requested")
+	symx.Cover("end")
 }
